@@ -215,6 +215,14 @@ def run(ctx, rec):
         rec.violation("bundle-series-port-accepted", "Series accepted a bundle-valued port as a series port", case={"gen": "Series", "probe": "bundle"})
     except Exception:
         pass
+    # ill-formed series pairs: one port twice
+    rec.count("probe.same-port-twice")
+    try:
+        m = Series(unit=build.leaf_call("R", 5), conns=("p", "p"), nser=2)
+        h.to_proto(m)
+        rec.violation("ill-formed-series-pair-accepted", "Series(R, conns=('p', 'p'), nser=2) was built and exported", case={"gen": "Series", "probe": "same-port"})
+    except Exception:
+        pass
     rec.exhaustive = True
     rec.extra["N"] = N
 
